@@ -54,6 +54,16 @@ impl Scheduler {
         tracker.unregister_data_request(filter.clone());
     }
 
+    /// A re-subscription changes the QoS an existing data request is served with
+    pub fn update_qos(&mut self, id: ConnectionId, filter: &Filter, qos: u8) {
+        let tracker = self.trackers.get_mut(id).unwrap();
+        for request in tracker.data_requests.iter_mut() {
+            if request.filter == *filter {
+                request.qos = qos;
+            }
+        }
+    }
+
     pub fn trackv(&mut self, id: ConnectionId, requests: VecDeque<DataRequest>) {
         let tracker = self.trackers.get_mut(id).unwrap();
         tracker.data_requests.extend(requests);
